@@ -119,10 +119,43 @@ def engine_types_batch(vtls, st):
     return engine_types_batch(vtls[:h], st) + engine_types_batch(vtls[h:], st)
 
 
+def deeper(rng, base, n):
+    """n expressions whose operands are accepted depth-1 expressions (parenthesised) or atoms: the judgement is compositional, this
+    samples the compositions (scalar sub-expressions, nested conditionals, promoted operands of promoted operands)"""
+    pool = [(l, v, c) for l, o, v, c in base] + [(a[0], a[1], a[2]) for a in ATOMS] * 20
+    out = []
+    for _ in range(n):
+        k = rng.choice(["bin", "bin", "bin", "un", "if", "nvl", "between", "in", "round"])
+        a, b, d = (rng.choice(pool) for _ in range(3))
+        pa, pb, pd_ = (f"({x[1]})" for x in (a, b, d))
+        if k == "bin":
+            _, cn, fmt = rng.choice(BINOPS)
+            out.append((f"deep:CBin {cn}", (a[0], b[0]), fmt.format(a=pa, b=pb), f"(CBin {cn} {a[2]} {b[2]})"))
+        elif k == "un":
+            _, cn, fmt = rng.choice(UNOPS)
+            out.append((f"deep:CUn {cn}", (a[0],), fmt.format(a=pa), f"(CUn {cn} {a[2]})"))
+        elif k == "if":
+            c0 = rng.choice([x for x in pool if "col:" in x[0] or "Col" in x[2]])
+            out.append(("deep:CIf", (c0[0], a[0], b[0]), f"if ({c0[1]}) then {pa} else {pb}", f"(CIf {c0[2]} {a[2]} {b[2]})"))
+        elif k == "nvl":
+            out.append(("deep:CNvl", (a[0], b[0]), f"nvl({pa}, {pb})", f"(CNvl {a[2]} {b[2]})"))
+        elif k == "between":
+            out.append(("deep:CBetween", (a[0], b[0], d[0]), f"between({pa}, {pb}, {pd_})", f"(CBetween {a[2]} {b[2]} {d[2]})"))
+        elif k == "in":
+            sn, sv, sc = rng.choice(SETS)
+            out.append(("deep:CIn", (a[0], "set:" + sn), f"{pa} in {sv}", f"(CIn {a[2]} {sc})"))
+        else:
+            out.append(("deep:CRound Some", (a[0],), f"round({pa}, 1)", f"(CRound {a[2]} (Some 1%Z))"))
+    return out
+
+
 def run(ctx, quick):
     st = structs()
     ex = expressions()
-    mt = model_types(ex)
+    mt0 = model_types(ex)
+    base_ok = [e for e, m in zip(ex, mt0) if m[0]]
+    ex = ex + deeper(ctx.rng, base_ok, 150 if quick else 3000)
+    mt = mt0 + model_types(ex[len(mt0):], "typetie_d")
     hist = {"expressions": len(ex), "accepted_by_model": sum(1 for m in mt if m[0]), "rejected_by_model": sum(1 for m in mt if not m[0])}
     acc = [i for i, m in enumerate(mt) if m[0]]
     rej = [i for i, m in enumerate(mt) if not m[0]]
@@ -144,6 +177,10 @@ def run(ctx, quick):
         ok = (t[0] == "OK" and want == t[1]) or (t[0] == "ERR" and want is None)
         if not ok:
             mism += 1
+            if t == ("ERR", "ValueError") and label.startswith("deep:") and "nvl(" in vtl:
+                ctx.violation("type-rule:raw-ValueError:CNvl:deep",
+                              f"calc Me_9 := {vtl}: semantic_analysis() raises a raw ValueError (nvl with a scalar first operand and a component second operand inside)", {"expr": vtl, "coq": coq})
+                continue
             if t == ("ERR", "ValueError") and label == "CNvl" and ops[0].startswith("lit:") and ops[1].startswith("col:"):
                 ctx.violation("type-rule:raw-ValueError:CNvl:scalar-left-component-right",
                               f"calc Me_9 := {vtl}: semantic_analysis() raises a raw ValueError instead of a SemanticError", {"expr": vtl, "coq": coq})
@@ -154,7 +191,7 @@ def run(ctx, quick):
     hist["type_mismatches"] = mism
     hist["rejected_checked"] = len(rej)
     # ---- values: every accepted expression evaluated on data; values must inhabit the SPEC type and equal ceval
-    ok_ids = [i for i in acc if eng.get(i, ("ERR",))[0] == "OK" and not any(k in ex[i][0] for k in ("Mod", "Power"))]   # mod / power: outside the value model
+    ok_ids = [i for i in acc if eng.get(i, ("ERR",))[0] == "OK" and not any(k in ex[i][3] for k in ("Mod", "Power"))]   # mod / power: outside the value model
     if quick:
         ok_ids = ctx.rng.sample(ok_ids, min(250, len(ok_ids)))
     df = frame()
@@ -177,6 +214,8 @@ def run(ctx, quick):
                 continue
             fam = ("boolean-promoted-to-string" if mt[i][2] is None else
                    "null-operand-incompatible-bounds" if (label == "CBetween" and ops[0] == "lit:Null") else "other")
+            if label.startswith("deep:") and fam != "other":
+                label = "deep"
             ctx.violation(f"well-typed-fails:{fam}:{label}" + ("" if fam != "other" else ":" + "/".join(ops)),
                           f"calc Me_9 := {vtl} is accepted by semantic analysis (type {eng[i][1]}) but run() fails with {r['err']} {r['msg'][:140]}; "
                           f"the model evaluates it to {str(mv)[:120]}", {"expr": vtl, "coq": coq, "engine_error": list(r["err"]), "model": str(mv)[:400]})
@@ -205,6 +244,8 @@ def run(ctx, quick):
         if gotc != want:
             vh["value_mismatches"] += 1
             fam = "boolean-promoted-to-string" if mt[i][2] is None else "other"
+            if label.startswith("deep:") and fam != "other":
+                label = "deep"
             ctx.violation(f"value:{fam}:{label}" + ("" if fam != "other" else ":" + "/".join(ops)),
                           f"calc Me_9 := {vtl} (engine type {et}, specification type {spec_t}): engine {gotc}, model {want}",
                           {"expr": vtl, "coq": coq, "engine": str(gotc), "model": str(want), "engine_type": et, "spec_type": spec_t})
